@@ -424,6 +424,7 @@ DetachAllOf(S, t, ss) == IF ss = <<>> THEN S ELSE DetachAllOf(Detach(S, t, Head(
 ReloadStep(S, a) ==
   LET t == a.t  c == S.cache[t] IN
   IF ~c.loaded THEN Reply(S, 0)
+  ELSE IF \E i \in DOMAIN c.att : c.att[i].s \in RootSessions THEN Reply(S, -1)    \* on-behalf-of attachments are not modelled
   ELSE LET ss == [i \in DOMAIN c.att |-> c.att[i].s]          \* att is kept in session order
            S1 == DetachAllOf(S, t, ss)
            S2 == [S1 EXCEPT !.cache[t] = Unloaded]
